@@ -128,6 +128,10 @@ async def key_chains(base, rnd):
             with lib.quiet():
                 await rr.unlock(password=base_pw, key=rr.serialize(base_key))
                 pw = f'pw{depth}{shared}'.encode()
+                if depth == 1 and shared:
+                    pw = b''                                  # the empty password: accepted by add-key (anything but None), so it must unlock
+                if depth == 2 and not shared:
+                    pw = b'p' * 70 + bytes([depth])           # longer than any hash block / key size limit of the KDFs
                 kdf = rnd.choice([FAST, {'name': 'scrypt', 'n': 8, 'r': 2, 'p': 1}])
                 nk = await rr.add_key(password=pw, shared=shared, settings={'encryption': {'kdf': dict(kdf)}})
             await rr.close()
